@@ -28,7 +28,7 @@
 )
 (global $g1 (mut (ref null $_Str)) (ref.null $_Str))
 ;; Passive data segment for string constants (used with array.new_data)
-(data $d0 "0\00-2147483648")
+(data $d0 "0\00-2147483648Vec index out of boundspop from empty Vec")
 (func $__$getBuiltinString (param $offset i32) (param $size i32) (result (ref $_Str))
   (array.new_data $_Str $d0 (local.get $offset) (local.get $size))
 )
@@ -323,7 +323,10 @@
 (func $__Vec$pop (param $this (ref $_Vec)) (result (ref eq))
   (local $len i32) (local $v (ref null eq))
   (local.set $len (struct.get $_Vec 1 (local.get $this)))
-  (if (i32.eqz (local.get $len)) (then (unreachable)))
+  (if (i32.eqz (local.get $len))
+    (then
+      (drop (call $__Process$panic (local.get $this) (call $__$getBuiltinString (i32.const 36) (i32.const 18))))
+      (unreachable)))
   (local.set $len (i32.sub (local.get $len) (i32.const 1)))
   (local.set $v (array.get $_VecData
     (struct.get $_Vec 0 (local.get $this))
@@ -339,14 +342,18 @@
 
 (func $__Vec$get (param $this (ref $_Vec)) (param $i i32) (result (ref eq))
   (if (i32.ge_u (local.get $i) (struct.get $_Vec 1 (local.get $this)))
-    (then (unreachable)))
+    (then
+      (drop (call $__Process$panic (local.get $this) (call $__$getBuiltinString (i32.const 13) (i32.const 23))))
+      (unreachable)))
   (ref.as_non_null
     (array.get $_VecData (struct.get $_Vec 0 (local.get $this)) (local.get $i)))
 )
 
 (func $__Vec$set (param $this (ref $_Vec)) (param $i i32) (param $v (ref null eq)) (result i32)
   (if (i32.ge_u (local.get $i) (struct.get $_Vec 1 (local.get $this)))
-    (then (unreachable)))
+    (then
+      (drop (call $__Process$panic (local.get $this) (call $__$getBuiltinString (i32.const 13) (i32.const 23))))
+      (unreachable)))
   (array.set $_VecData
     (struct.get $_Vec 0 (local.get $this))
     (local.get $i)
